@@ -217,6 +217,7 @@ fn check_standard(input: &[u8], pat: &str, c: &Cfg9, re: &regex::bytes::Regex) -
     let mut block_hist: Vec<(usize, bool)> = vec![];
     let mut known = false;
     for r in recs.iter() {
+        let mut ambiguous = false;
         // locate the line this record claims to be
         let idx = if let Some(n) = r.line {
             if n == 0 || n as usize > lines.len() {
@@ -229,7 +230,10 @@ fn check_standard(input: &[u8], pat: &str, c: &Cfg9, re: &regex::bytes::Regex) -
                 None => return Err(format!("byte offset {} is not the start of a line", o)),
             }
         } else {
-            // no coordinate: the printed lines must be a subsequence
+            // no coordinate: the printed lines must be a subsequence (when
+            // several later lines have the printed text, which of them was
+            // printed cannot be told: the column is then not judged)
+            ambiguous = (cursor..lines.len()).filter(|&i| shown(&input[lines[i].0..lines[i].1], c.crlf) == r.text).count() > 1;
             match (cursor..lines.len()).find(|&i| shown(&input[lines[i].0..lines[i].1], c.crlf) == r.text) {
                 Some(i) => i,
                 None => return Err(format!("printed text {:?} is not a (later) line of the input", esc(&r.text))),
@@ -257,7 +261,7 @@ fn check_standard(input: &[u8], pat: &str, c: &Cfg9, re: &regex::bytes::Regex) -
                 return Err(format!("byte offset {} but the line starts at {}", o, s));
             }
         }
-        if let (Some(col), true) = (r.col, r.is_match) {
+        if let (Some(col), true, false) = (r.col, r.is_match, ambiguous) {
             // reference: start of a match in this line
             let body = strip(&input[s..e], term);
             let starts: Vec<usize> = if true_ml {
